@@ -29,6 +29,8 @@ pub fn gen_tiles(r: &mut Rng) -> Vec<usize> {
 }
 
 pub fn gen_mat3(r: &mut Rng) -> Matrix3<f32> {
+    // sometimes a uniform scale kept in the homogeneous weight: bottom row (0, 0, w), w != 1
+    if r.chance(0.15) { let mut m = Matrix3::identity(); if r.chance(0.5) { m = Matrix3::new_rotation(r.unit() as f32 * 6.0); } m[(2, 2)] = *r.pick(&[2.0f32, 0.5, 1.6, 3.0]); return m; }
     match r.below(4) {
         0 => Matrix3::identity(),
         1 => Matrix3::new_scaling(*r.pick(&[0.5f32, 2.0, 1.5, 0.75])),
